@@ -162,16 +162,19 @@ def loadCfg (defaultLocalIP : Str) (o : Opts) : Option Cfg :=
 
 /-! ### `startServers` -/
 
-/-- The listener kinds of `proxy.addr` that serve HTTP: `proto=http` (no certificate source) and
-`proto=https` (`cs=…`). -/
+/-- The listener kinds of `proxy.addr` that serve HTTP (`startServers`: the three `case`s that call
+`newHTTPProxy`): `proto=http` (no certificate source), `proto=https` (`cs=…`) and `proto=https+tcp+sni` (TLS
+connections whose SNI matches no TCP route fall through to the HTTPS server). -/
 inductive Listener where
   | http
   | https
+  | httpsTcpSni
 deriving Repr, DecidableEq
 
 def Listener.tls : Listener → Bool
   | .http => false
   | .https => true
+  | .httpsTcpSni => true
 
 /-- The request as the listener's HTTP server hands it to the proxy: `r.TLS` is non-nil exactly on a listener
 that terminates TLS (`st` = negotiated version and cipher suite). -/
